@@ -53,8 +53,8 @@ CHECKS = {
          "Temporaries are compared modulo any numbering (see DESIGN.md C07 for why first-occurrence renumbering would be too strict).",
          "DESIGN.md C07"),
  "C01": ("bounded-exhaustive type-directed enumeration of programs (choice-tree explorer over productions, fuel splits and leaves), each transpiled by fc, compiled with go build and executed; stdout compared with a reference evaluator (strict, left-to-right, lexically scoped big-step semantics)",
-         "Every well-typed program with at most 2 constructs over the full alphabet (about 75 productions: arithmetic, comparison, equality on 5 types, && || not, if/else, if-only, elif, union match in 3 variants, generic-union match, string match, let over 7 binder types, destructuring, local functions, lambdas, full and partial application, pipes, tuples, slices and 15 slice functions, records, constructors, interpolation, sequencing, lifted top-level functions with and without annotations) in every root position; thorough adds all programs with exactly 3 constructs over the control-flow/closure constructs and exactly 4 over the closure core. Traced leaves make order and multiplicity of every evaluation visible in stdout, bool/union leaves steer both branches of every if/match/&&/||. Programs are batched 300 per go build; a verdict is only issued on a single-program re-run.",
-         "Programs larger than the bound and constructs outside the alphabet are not covered; the reference evaluator is trusted after cross-validation against fc and tinyfo (C17). One known finding (partial-application argument re-evaluation) is attributed by a defect model.",
+         "Every well-typed program with at most 2 constructs over the full alphabet (about 75 productions: arithmetic, comparison, equality on 5 types, && || not, if/else, if-only, elif, union match in 3 variants, generic-union match, string match, let over 7 binder types, destructuring, local functions, lambdas, full and partial application, pipes, tuples, slices and 15 slice functions, records, constructors, interpolation, sequencing, lifted top-level functions with and without annotations) in every root position, plus all programs with exactly 3 constructs over {if-else, if-only, say} and over the 10 closure constructs; thorough adds exactly 3 constructs over if/match nesting, the control-flow constructs and the 19 control-flow/closure constructs, and exactly 4 over the closure core (plans run smallest first; evidence lists the plans completed). Traced leaves make order and multiplicity of every evaluation visible in stdout, bool/union leaves steer both branches of every if/match/&&/||. Programs are batched 300 per go build; a verdict is only issued on a single-program re-run.",
+         "Programs larger than the bound and constructs outside the alphabet are not covered; the reference evaluator is trusted after cross-validation against fc and tinyfo (C17). Known findings: partial-application argument re-evaluation (attributed by a defect model), the dangling-else shape (attributed by a shape predicate on the program text plus failure class) and two corpus programs.",
          "DESIGN.md C01"),
  "C17": ("bounded-exhaustive type-directed enumeration of programs of the tinyfo profile (same explorer and generator as C01), each accepted program transpiled by tinyfo and by fc, compiled and executed; three-way comparison with the reference evaluator",
          "Every program with at most 2 (quick) / 3 (thorough) constructs of the tinyfo profile (annotated functions, + -, comparisons, && || not, if/elif/else, records and unions with match, slices, pairs and destructuring, pipes, partial application, package_info calls) is first given to tinyfo alone - a rejected program is outside the quantifier and only counted, per construct - and every accepted program is compiled and run from tinyfo's Go and from fc's Go: both stdouts must equal the reference evaluator's output.",
